@@ -18,6 +18,7 @@ def parseDamage : String → Option Damage
   | "notInFile" => some .notInFile | "restResults" => some .restResults | "exportedGetFlag" => some .exportedGetFlag
   | "manualBadParam" => some .manualBadParam | "manualTwice" => some .manualTwice | "formatFail" => some .formatFail
   | "restParseFail" => some .restParseFail | "restAliasDup" => some .restAliasDup | "outputBlocked" => some .outputBlocked
+  | "cleanGlobBad" => some .cleanGlobBad
   | _ => none
 
 def c18yn (b : Bool) : String := if b then "yes" else "no"
